@@ -1,3 +1,95 @@
-(* C10 -- statements land here; model XV.XmlFmt, projections XV.Projections, proofs XV.XmlFmtProofs*. *)
-From Coq Require Import List NArith.
-Require Import XV.XmlFmt.
+(* C10 -- rejecting every marked change in the XML formatter's output reproduces the left document.
+
+   Model: XV.XmlFmt, tied to xmldiff/formatting.py by harness/xmlfmt_corr.py on every run; projection:
+   XV.Projections.reject.  Only statements here; proofs in XV.XmlFmtProofs0-5.
+
+   Vocabulary (see also Properties/C09.v)
+     L                    the PREPARED left document as the formatter's working tree (comments removed);
+     gs                   ANY list of actions (namedtuples) -- the reject side needs nothing about the script beyond
+                          the side conditions run_ok on the run: a text update meets a text without diff markup
+                          (each text is updated at most once), a node is renamed at most once, inserted tags are not
+                          diff:insert/delete/replace, action texts have no private-use character, attribute actions do
+                          not name diff: attributes, the tail of the root is not updated.  True of Differ scripts; evaluated
+                          by the harness (run_okb) on every generated script (a TESTED premise, reported as such);
+     unmarked L           no diff:insert / diff:rename attribute in the document;
+     erase_attrs          the document without its attributes.
+
+   PARTIAL.  Proved: for configurations without text tags and without use_replace, rejecting every marked change
+   gives back the left document's TAGS (diff:rename undone), STRUCTURE (inserted elements and moved copies dropped with
+   the text region after them, deleted and moved-away elements restored), TEXTS and TAILS (diff:insert wrappers dropped,
+   diff:delete wrappers restored) -- exactly, up to whitespace normalisation when normalize & WS_TEXT.
+   Missing for the full statement:
+   (1) ATTRIBUTES: the restoration of old attribute names and values from the diff:*-attr annotation strings
+       (Projections.old_attrs) is defined and exercised by the reject oracle on every run, but not proved: it needs
+       parsing lemmas for the ';' / ':' separated lists and the per-node disjointness of the differ's attribute actions;
+   (2) text_tags <> [] and use_replace = true: correspondence + reject oracle only (and use_replace with text_tags is
+       the open finding "use_replace-with-text_tags": old-text then holds raw placeholder characters);
+   (3) the premise run_ok is a condition on the run rather than a consequence of "script = Differ output". *)
+From Coq Require Import List NArith ZArith Bool.
+Import ListNotations.
+Require Import XV.Str XV.Json XV.TextFormat XV.Forest XV.Path XV.XmlFmt XV.Projections
+               XV.XmlFmtProofs1 XV.XmlFmtProofs2 XV.XmlFmtProofs3 XV.XmlFmtProofs4 XV.XmlFmtProofs5.
+Require XV.Placeholder XV.PlaceholderUndo XV.DMP.
+Local Open Scope N_scope.
+
+Theorem C10_reject_partial :
+  forall (c : cfg) (o : oracle) (rootns : list (option str * str)) (gs : list gaction) (L T : xtree),
+  c_tt c = [] -> c_replace c = false ->
+  PlaceholderUndo.npua L = true -> clean_tags L -> unmarked L ->
+  run_ok c o rootns (FS L Placeholder.ph_init [(Some DIFF_PREFIX, DIFF_NS)]) gs ->
+  xml_format c o rootns Placeholder.ph_init gs L = FOk T ->
+  xequiv (ws_text c) (erase_attrs (reject T)) (erase_attrs L).
+Proof. intros c o rootns gs L T _. exact (reject_format c o rootns gs L T). Qed.
+Print Assumptions C10_reject_partial.
+
+(* the handlers never change what rejection reads, one action at a time (the refinement step) *)
+Theorem C10_reject_step :
+  forall (c : cfg) (o : oracle) (rootns : list (option str * str)) (st : fstate) (d : dact) (st' : fstate),
+  c_replace c = false -> winv (fs_tree st) -> fs_ph st = Placeholder.ph_init -> step_ok rootns st d ->
+  handle_d c o rootns st d = FOk st' ->
+  winv (fs_tree st') /\ fs_ph st' = Placeholder.ph_init /\
+  vr (ws_text c) (fs_tree st') = vr (ws_text c) (fs_tree st).
+Proof. intros c o rootns st d st' H. exact (step_reject c o rootns H st d st'). Qed.
+Print Assumptions C10_reject_step.
+
+(* finalize never fails on the trees the handlers build (no IndexError in undo_string), and the two
+   projections of its result are the two views of the working tree *)
+Theorem C10_finalize_views : forall W, run_tree W -> clean_tags W -> plain (xtail W) ->
+  exists T, finalize Placeholder.ph_init W = FOk T /\
+            accept T = set_tail (aw W) (xtail T) /\ reject T = set_tail (rw W) (xtail T).
+Proof. exact finalize_run. Qed.
+Print Assumptions C10_finalize_views.
+
+(* Non-vacuity: <a><b>xy</b>t<c/></a> with the script of Properties/C09.v (move, text update, rename, attribute,
+   insert + delete), given as the namedtuples the differ yields. *)
+Definition exW : xtree :=
+  XNode [97] [] None [] [XNode [98] [] (Some [120;121]) [116] []; XNode [99] [] None [] []].
+Definition s_ (l : list N) : str := l.
+Definition exGs : list gaction :=
+  [GA (s_ [77;111;118;101;78;111;100;101]) [PStr [47;97;47;99;91;49;93]; PStr [47;97;47;98;91;49;93]; PInt 0];
+   GA (s_ [85;112;100;97;116;101;84;101;120;116;73;110]) [PStr [47;97;47;98;91;49;93]; PStr [120;122]];
+   GA (s_ [82;101;110;97;109;101;78;111;100;101]) [PStr [47;97;47;98;47;99;91;49;93]; PStr [100]];
+   GA (s_ [73;110;115;101;114;116;65;116;116;114;105;98]) [PStr [47;97;91;49;93]; PStr [107]; PStr [49]];
+   GA (s_ [73;110;115;101;114;116;78;111;100;101]) [PStr [47;97;91;49;93]; PStr [101]; PInt 0];
+   GA (s_ [68;101;108;101;116;101;78;111;100;101]) [PStr [47;97;47;101;91;49;93]]].
+Definition exO : oracle :=
+  Orc {| DMP.isalnum := fun c => (97 <=? c) && (c <=? 122); DMP.isspace := fun c => c =? 32 |} (fun _ => false).
+Definition exC : cfg := Cfg 0 false [] [].
+
+Example C10_example :
+  exists T, xml_format exC exO [] Placeholder.ph_init exGs exW = FOk T /\
+            xequiv (ws_text exC) (erase_attrs (reject T)) (erase_attrs exW) /\
+            (* and here the attributes come back as well *)
+            xequiv_rb false (reject T) exW = true.
+Proof.
+  destruct (xml_format exC exO [] Placeholder.ph_init exGs exW) as [T|e] eqn:E; [|vm_compute in E; discriminate].
+  exists T. split; [reflexivity|]. split.
+  - apply (C10_reject_partial exC exO [] exGs exW T eq_refl eq_refl).
+    + reflexivity.
+    + repeat (constructor; try reflexivity).
+    + repeat (constructor; try reflexivity).
+    + apply run_okb_sound. vm_compute. reflexivity.
+    + exact E.
+  - vm_compute in E. inversion E; subst T. vm_compute. reflexivity.
+Qed.
+Print Assumptions C10_example.
